@@ -1,5 +1,6 @@
 import GB.C05.Witness
 import GB.C05.PipelineProofs
+import GB.C05.Deadlock
 import GB.C05.Deciders
 /-
   C05 — reflection resolution reproduces the target's contract for any conformant server.
@@ -651,3 +652,85 @@ theorem C05_original_send_eof_masks_status :
         (fun s => s.result.map fun r => match r with | .ok _ => 0 | .error e => e.code) = some (some Pipe.codeEOF) := by
   decide
 
+
+
+/-! ## Global deadlock freedom and termination of the pipelined client (Deadlock.lean)
+
+`Label.spontaneous` = what may hit the code out of the blue (`reqSendFault`, `reqSendEOF`, `rcvFault`,
+`streamEnd`); `Label.envLaw` = what the stream owes (`serve`: answer a request that is on the wire;
+`rcvStatus`: once ended, make the pending Recv return the status); every other label is a statement of the
+requester, the receiver or main (execFileDescriptorRequests, then close()). -/
+
+/-- DEADLOCK FREEDOM.  In every reachable state of every interleaving that is not the final `closed`, a move
+    that is not a spontaneous fault is enabled; it is a move of the CODE (requester, receiver, main) except
+    in exactly one situation: the receiver is inside `Recv` for response i, request i is on the wire and
+    the stream has not answered it yet — then the stream's own law (`serve`, or `rcvStatus` once it has
+    ended) is the enabled move.  No state waits for a fault. -/
+theorem C05_pipeline_deadlock_free (closeFixed : Bool) (A : List Answer) (s : Pipe.PState)
+    (hr : LTS.Reachable (Pipe.step closeFixed A) (Pipe.init A.length) s) (hne : s.mpc ≠ .closed) :
+    ∃ l, l.spontaneous = false ∧ (Pipe.step closeFixed A s l).isSome = true ∧
+      (l.envLaw = true → ∃ i, s.vpc = .recv i ∧ s.served ≤ i ∧ i < s.wire) := by
+  have hil := Pipe.linv_reachable closeFixed A s hr
+  refine ⟨Pipe.nextMove closeFixed A.length s, Pipe.nextMove_not_spontaneous _ _ _,
+    Pipe.progress closeFixed A s hil.1 hil.2 hne, fun he => ?_⟩
+  obtain ⟨i, hv, hs⟩ := Pipe.nextMove_envLaw _ _ _ he
+  exact ⟨i, hv, hs, ((C05_pipeline_semaphore closeFixed A s hr).1 i hv).1⟩
+
+/-- The channel operations of the two goroutines never block: the semaphore (capacity n) holds fewer than n
+    tokens whenever the requester is about to push; each goroutine writes its capacity-1 error channel
+    exactly once and finds it empty — also after main has already returned on the other one's error. -/
+theorem C05_pipeline_pushes_never_block (closeFixed : Bool) (A : List Answer) (s : Pipe.PState)
+    (hr : LTS.Reachable (Pipe.step closeFixed A) (Pipe.init A.length) s) :
+    s.sem ≤ A.length ∧ (∀ i, s.rpc = .signal i → s.sem < A.length) ∧
+    (s.rpc ≠ .done → s.sendErr = none) ∧ (s.vpc ≠ .done → s.recvErr = none) := by
+  have hil := Pipe.linv_reachable closeFixed A s hr
+  have h1 := hil.1.tokens
+  have h2 := hil.1.sig_le
+  have h3 := hil.1.wire_le
+  refine ⟨by omega, fun i hs => ?_, hil.2.send_once, hil.2.recv_once⟩
+  have := hil.1.r_signal i hs
+  omega
+
+/-- TERMINATION.  `Pipe.rank` strictly decreases along EVERY step (code, stream, faults), so no fairness
+    assumption is needed: every execution from the initial state has at most 5n+13 steps. -/
+theorem C05_pipeline_rank_decreases (closeFixed : Bool) (A : List Answer) (s s' : Pipe.PState) (l : Pipe.Label)
+    (hr : LTS.Reachable (Pipe.step closeFixed A) (Pipe.init A.length) s)
+    (h : Pipe.step closeFixed A s l = some s') : Pipe.rank A.length s' < Pipe.rank A.length s :=
+  Pipe.rank_step closeFixed A s l s' (Pipe.pinv_reachable closeFixed A s hr) h
+
+theorem C05_pipeline_runs_bounded (closeFixed : Bool) (A : List Answer) (ls : List Pipe.Label) (s : Pipe.PState)
+    (h : LTS.run (Pipe.step closeFixed A) (Pipe.init A.length) ls = some s) : ls.length ≤ 5 * A.length + 13 := by
+  have h1 := Pipe.run_bounded closeFixed A ls _ s (Pipe.pinv_init closeFixed A) h
+  have h2 := Pipe.rank_init_le A.length
+  omega
+
+/-- Every maximal run ends with the function returned and the client closed: a reachable state in which no
+    non-spontaneous move is enabled is `closed`, both goroutines have exited and the result is decided; and
+    from every reachable state some continuation WITHOUT any spontaneous fault gets there. -/
+theorem C05_pipeline_terminates (closeFixed : Bool) (A : List Answer) (s : Pipe.PState)
+    (hr : LTS.Reachable (Pipe.step closeFixed A) (Pipe.init A.length) s) :
+    ((∀ l, l.spontaneous = false → Pipe.step closeFixed A s l = none) →
+      s.mpc = .closed ∧ s.rpc = .done ∧ s.vpc = .done ∧ s.result.isSome = true) ∧
+    (∃ ls s', LTS.run (Pipe.step closeFixed A) s ls = some s' ∧ s'.mpc = .closed ∧
+      (∀ l ∈ ls, l.spontaneous = false) ∧ ls.length ≤ Pipe.rank A.length s) := by
+  have hil := Pipe.linv_reachable closeFixed A s hr
+  refine ⟨fun hstuck => ?_, ?_⟩
+  · have hc : s.mpc = .closed := by
+      by_cases hc : s.mpc = .closed
+      · exact hc
+      · have hp := Pipe.progress closeFixed A s hil.1 hil.2 hc
+        rw [hstuck _ (Pipe.nextMove_not_spontaneous _ _ _)] at hp
+        simp at hp
+    have hj := hil.1.joined (by rw [hc]; simp) (by intro k; rw [hc]; simp)
+    exact ⟨hc, hj.1, hj.2, hil.2.decided (by intro k; rw [hc]; simp)⟩
+  · obtain ⟨ls, s', hrun, hcl, hall⟩ := Pipe.reaches_closed closeFixed A _ s (Nat.le_refl _) hil.1 hil.2
+    have hb := Pipe.run_bounded closeFixed A ls s s' hil.1 hrun
+    exact ⟨ls, s', hrun, hcl, hall, by omega⟩
+
+/-- non-vacuity of the above: the scheduler `nextMove` drives a 2-request batch from the initial state to
+    `closed` in 19 moves, none of them a fault (kernel evaluation) -/
+theorem C05_pipeline_nextMove_witness :
+    let A : List Answer := [.files [], .files []]
+    let go := fun (s : Pipe.PState) => (Pipe.step true A s (Pipe.nextMove true 2 s)).getD s
+    (Nat.repeat go 19 (Pipe.init 2)).mpc = .closed ∧ (Nat.repeat go 18 (Pipe.init 2)).mpc ≠ .closed := by
+  decide
